@@ -1,6 +1,7 @@
 (* C20 — JSON save/load loses nothing: cell codec theorems (statements only; proofs in C20/Proofs.v) *)
 From Coq Require Import ZArith QArith Qabs List Bool String.
-From PPV Require Import Base.QN C20.Model C20.Proofs.
+From PPV Require Import Base.QN C20.Model C20.Proofs C20.Column C20.ColumnProofs.
+Import ListNotations.
 Open Scope Q_scope.
 
 (* floats in fixed notation (1e-15 <= |x| <= 1e16): the text carries x to within 0.5e-15 (bound of the property: 1e-14) *)
@@ -40,3 +41,68 @@ Print Assumptions C20_inf_refuted.
 Theorem C20_subnormal_refuted : fits DFloat (CF q_sub) = true /\ roundtrip DFloat sc_sub (CF q_sub) = None.
 Proof. exact subnormal_refuted. Qed.
 Print Assumptions C20_subnormal_refuted.
+
+(* ======================================================================================================================
+   Column / table level (C20/Column.v): the writer stores per column the dtype string and the tokens of the cells; the
+   reader [decode_col] infers a raw dtype from the tokens (DataFrame constructor), applies astype(stored dtype) (keeping
+   the raw data when astype raises) and resets the nulls of object columns to None.  One round-trip theorem per stored
+   dtype class the code distinguishes; [fitsall d cs] = the column can hold the cells. *)
+
+(* int64 / bool / string / nullable Int64 columns: the dtype and every cell come back exactly, for every column content
+   (also empty; an Int64 column with missing values travels as float64 and is converted back; an all-missing one as object) *)
+Theorem C20_col_roundtrip_int : forall cs, fitsall DInt cs = true -> decode_col DInt (encode_col cs) = ColOk DInt (map snd cs).
+Proof. exact col_roundtrip_int. Qed.
+Print Assumptions C20_col_roundtrip_int.
+Theorem C20_col_roundtrip_bool : forall cs, fitsall DBool cs = true -> decode_col DBool (encode_col cs) = ColOk DBool (map snd cs).
+Proof. exact col_roundtrip_bool. Qed.
+Print Assumptions C20_col_roundtrip_bool.
+Theorem C20_col_roundtrip_string : forall cs, fitsall DString cs = true -> decode_col DString (encode_col cs) = ColOk DString (map snd cs).
+Proof. exact col_roundtrip_string. Qed.
+Print Assumptions C20_col_roundtrip_string.
+Theorem C20_col_roundtrip_nullint : forall cs, fitsall DNullInt cs = true ->
+  decode_col DNullInt (encode_col cs) = ColOk DNullInt (map snd cs).
+Proof. exact col_roundtrip_nullint. Qed.
+Print Assumptions C20_col_roundtrip_nullint.
+Example C20_col_nullint_nonvacuous :
+  decode_col DNullInt (encode_col [(1, CI 5); (1, CNone); (1, CI (-3))]) = ColOk DNullInt [CI 5; CNone; CI (-3)].
+Proof. exact col_nullint_nonvacuous. Qed.
+
+(* float64 column without a cell written as a subnormal: dtype float64 restored, same rows, every cell is the result of the
+   per-cell codec (error bounds: C20_float_roundtrip_within / _sig_within; NaN stays NaN; +-inf -> NaN is the known finding) *)
+Theorem C20_col_roundtrip_float_partial : forall cs, fitsall DFloat cs = true -> existsb is_err (encode_col cs) = false ->
+  decode_col DFloat (encode_col cs) = ColOk DFloat (map fdec (encode_col cs)) /\
+  map (fun p => roundtrip DFloat (fst p) (snd p)) cs = map Some (map fdec (encode_col cs)).
+Proof. exact col_roundtrip_float. Qed.
+Print Assumptions C20_col_roundtrip_float_partial.
+Example C20_col_float_inf_refuted :
+  decode_col DFloat (encode_col [(1, CInf false); (1, CF (1 # 2))]) = ColOk DFloat [CNaN; CF (1 # 2)].
+Proof. exact col_float_inf_refuted. Qed.
+
+(* object column holding at least one string (names, types, ...): raw dtype object, dtype object restored, every cell is the
+   result of the per-cell codec of class DObject (strings, bools, ints exact; NaN/None -> None by the null reset) *)
+Theorem C20_col_roundtrip_object_partial : forall cs,
+  existsb (fun p => match snd p with CS _ => true | _ => false end) cs = true -> existsb is_err (encode_col cs) = false ->
+  decode_col DObject (encode_col cs) = ColOk DObject (map odec (encode_col cs)) /\
+  map (fun p => roundtrip DObject (fst p) (snd p)) cs = map Some (map odec (encode_col cs)).
+Proof. exact col_roundtrip_object_str. Qed.
+Print Assumptions C20_col_roundtrip_object_partial.
+(* without a string the statement "ints stay ints" is false: an all-numeric object column with a missing value is parsed as
+   float64, its ints come back as floats (class DObjNum of the cell codec, computed by col_class) *)
+Example C20_col_objnum_refuted :
+  decode_col DObject (encode_col [(1, CI 1); (1, CNone)]) = ColOk DObject [CF (inject_Z 1); CNone] /\
+  col_class DObject [CI 1; CNone] = DObjNum.
+Proof. exact col_objnum_ints_become_floats. Qed.
+
+(* tables: the index labels, the column names and their order are those of the saved table; column i is decoded with its
+   own stored dtype *)
+Theorem C20_table_roundtrip_shape : forall t,
+  fst (decode_table (encode_table t)) = t_index t /\
+  map fst (snd (decode_table (encode_table t))) = map fst (t_cols t) /\
+  List.length (snd (decode_table (encode_table t))) = List.length (t_cols t).
+Proof. exact table_roundtrip_shape. Qed.
+Print Assumptions C20_table_roundtrip_shape.
+Theorem C20_table_roundtrip_cols : forall t,
+  snd (decode_table (encode_table t)) =
+  map (fun c => (fst c, decode_col (fst (snd c)) (encode_col (snd (snd c))))) (t_cols t).
+Proof. exact table_roundtrip_cols. Qed.
+Print Assumptions C20_table_roundtrip_cols.
